@@ -7,6 +7,7 @@
 
 pub mod coord;
 pub mod explore;
+pub mod interpose;
 pub mod lin;
 pub mod rt;
 
